@@ -456,6 +456,46 @@ fn ec_one(path: &[(autosar_data::ElementName, autosar_data_specification::Elemen
             if t2 != text { return Err(format!("the file built through the API does not survive load + serialize unchanged :: document {}", hex(text.as_bytes()))); }
         }
     }
+    // last step (it takes the element out of this model when it succeeds): MOVE the whole element into a file of another version.  A move
+    // relinks the sub-tree as it is, nothing is filtered; whatever arrives must be permitted in the destination's version (the pinned
+    // code refuses every such move: "the origin document must have exactly the same AutosarVersion as the destination")
+    if path.len() >= 2 && rng.below(2) == 0 {
+        let all = autosar_data_specification::expand_version_mask(u32::MAX);
+        let (_, okmask) = file.check_version_compatibility(v);
+        let bad: Vec<AutosarVersion> = all.iter().cloned().filter(|x| (*x as u32) & okmask == 0).collect();
+        let v3 = if !bad.is_empty() && rng.below(3) != 0 { bad[rng.below(bad.len())] } else { all[rng.below(all.len())] };
+        if v3 != v {
+            let model3 = AutosarModel::new();
+            if let Ok(file3) = model3.create_file("f3.arxml", v3) {
+                let mut cur3 = model3.root_element();
+                let mut ok = true;
+                for (k, (name, _)) in path.iter().enumerate().skip(1).take(path.len() - 2) {
+                    let named = cur3.element_type().find_sub_element(*name, v3 as u32).map(|(t, _)| t.is_named_in_version(v3));
+                    let r = match named { Some(true) => cur3.create_named_sub_element(*name, &format!("n{}", k)), Some(false) => cur3.create_sub_element(*name), None => { ok = false; break; } };
+                    match r { Ok(e) => cur3 = e, Err(_) => { ok = false; break; } }
+                }
+                if ok {
+                    let before = file3.serialize().map_err(|e| format!("serialize: {}", e))?;
+                    let at = rng.below(2) == 0;
+                    let r = if at { cur3.move_element_here_at(&cur, 0) } else { cur3.move_element_here(&cur) };
+                    let text3 = file3.serialize().map_err(|e| format!("serialize: {}", e))?;
+                    match r {
+                        Err(_) => { if text3 != before { return Err(format!("a refused move of {} into a {} file changed the destination", cur.element_name(), v3.filename())); } }
+                        Ok(_) => {
+                            let what = format!("after {}({}) from a {} file into a {} file", if at { "move_element_here_at" } else { "move_element_here" }, cur.element_name(), v.filename(), v3.filename());
+                            match AutosarModel::new().load_buffer(text3.as_bytes(), "g3.arxml", false) {
+                                Err(e) => return Err(format!("cross-version move: the destination file is rejected by lenient loading [{}: {}] :: document {}", what, e, hex(text3.as_bytes()))),
+                                Ok((_, warnings)) => for w in &warnings {
+                                    let s = w.to_string();
+                                    if !s.contains("is required in element") { return Err(format!("cross-version move: lenient loading of the destination file complains [{}: {}] :: document {}", what, s, hex(text3.as_bytes()))); }
+                                }
+                            }
+                        }
+                    }
+                }
+            }
+        }
+    }
     Ok(())
 }
 
